@@ -482,12 +482,20 @@ func c15module(sc *c15schema, ts []c15type) (*meta.Module, string, error) {
 		sc.kids = append(sc.kids, &gen.SNode{Name: n, Kind: "leaf", Type: sc.types[n].yang})
 	}
 	sc.kids = append(sc.kids, gc)
-	y := "module m { namespace \"urn:m\"; prefix m; import g { prefix g; } revision 2020-01-01;\n identity idb; identity d1 { base idb; } identity d2 { base d1; } identity md { base g:gbase; }\n" +
-		c15yang(sc, sc.kids[:len(sc.kids)-1], "  ") + "  container gwrap { uses g:grp { augment gc/gch { case cm { leaf gcm { type string; } container gcc { leaf gq { type string; } } } } augment gc { leaf ga { type string; } } } }\n}\n"
-	opener := source.Any(source.Named("m", strings.NewReader(y)), source.Named("g", strings.NewReader(c15imported)))
+	// a container the module gets from a submodule (merged after the module's own nodes): in data it is the module's
+	// (name, namespace)
+	sc.kids = append(sc.kids, &gen.SNode{Name: "msub", Kind: "cont", Kids: []*gen.SNode{{Name: "msl", Kind: "leaf", Type: "string"}, {Name: "msi", Kind: "leaf", Type: c15typeNamed(ts, "identityref").yang}}})
+	sc.mod["msub"], sc.mod["msl"], sc.mod["msi"] = "m", "m", "m"
+	sc.types["msl"], sc.types["msi"] = ts[0], c15typeNamed(ts, "identityref")
+	y := "module m { namespace \"urn:m\"; prefix m; import g { prefix g; } include ms; revision 2020-01-01;\n identity idb; identity d1 { base idb; } identity d2 { base d1; } identity md { base g:gbase; }\n" +
+		c15yang(sc, sc.kids[:len(sc.kids)-2], "  ") + "  container gwrap { uses g:grp { augment gc/gch { case cm { leaf gcm { type string; } container gcc { leaf gq { type string; } } } } augment gc { leaf ga { type string; } } } }\n}\n"
+	opener := source.Any(source.Named("m", strings.NewReader(y)), source.Named("g", strings.NewReader(c15imported)), source.Named("ms", strings.NewReader(c15submodule)))
 	m, err := parser.LoadModule(opener, "m")
 	return m, y, err
 }
+
+// the submodule every typed module includes
+const c15submodule = "submodule ms { belongs-to m { prefix m; } container msub { leaf msl { type string; } leaf msi { type identityref { base m:idb; } } } }\n"
 
 var c15reused [8]*nodeutil.JSONWtr
 
